@@ -219,7 +219,10 @@ func main() {
 	// longest first, stable
 	sort.SliceStable(jobs, func(i, j int) bool { return jobs[i].cost > jobs[j].cost })
 	r.Set("jobs", len(jobs))
+	waitLeftover := m.stageLeftover() // process runs, on their own pool next to the CPU-bound jobs
 	mon.Par(len(jobs), func(i int) { jobs[i].f() })
+	lap("jobs")
+	waitLeftover()
 	lap("run")
 
 	m.checkUniqueness()
